@@ -212,6 +212,7 @@ extern "C" void vf_main() {
   // path falls back to the central queue for its task (scheduleBulkToRingsFastPath, thread_pool.h:845-851);
   // then optionally a waiter steals one ring task / a helper takes one queue task, then the end
   {
+    using pk::Ballast;
     PK_PUSH_IF(pool->rings_[0], true) PK_PUSH_IF(pool->rings_[0], true) PK_PUSH_IF(pool->rings_[0], true)
     PK_PUSH_IF(pool->rings_[0], true) PK_PUSH_IF(pool->rings_[0], true) PK_PUSH_IF(pool->rings_[0], true)
     PK_PUSH_IF(pool->rings_[0], true) PK_PUSH_IF(pool->rings_[0], true) PK_PUSH_IF(pool->rings_[0], true)
